@@ -204,7 +204,7 @@ func readConfigFile(filename string) (map[int]string, error) {
 		if len(parts) > 1 {
 			val = strings.TrimSpace(parts[1])
 		}
-		uckey := strings.ToUpper(strings.TrimSpace(parts[0]))
+		uckey := asciiUpper(strings.TrimSpace(parts[0]))
 		found := false
 		for _, item := range settingSetup {
 			if uckey == item.configKey {
@@ -224,6 +224,18 @@ func readConfigFile(filename string) (map[int]string, error) {
 		return nil, err
 	}
 	return cfg, nil
+}
+
+
+// Upper-cases the ASCII letters only:  strings.ToUpper also maps U+017F and U+0131 to S and I
+func asciiUpper(s string) string {
+	b := []byte(s)
+	for i, c := range b {
+		if 'a' <= c && c <= 'z' {
+			b[i] = c - 'a' + 'A'
+		}
+	}
+	return string(b)
 }
 
 
